@@ -233,7 +233,7 @@ REGISTRY = {
         "rule": "10 escaping spellings (absolute, '..' surviving -p0/-p1/-p2, inner and trailing '..', './..') x position (---, +++, both, diff --git line, rename source/target) x "
                 "modify/create/delete of decoys, incl. creation- and deletion-shaped hunks with two real names (one escaping, one inside) x quoted with octal escapes or not x threads 1/4 x position of the offending patch in a random series. "
                 "Non-trivial: all of them (every name resolves outside the workspace); distinct by (spelling, position, action, quoting, threads, series).",
-        "floor": floors(("held-runs", 500), ("syscalls-audited", 10000)),
+        "floor": floors(("held-runs", 500), ("syscalls-audited", 10000), ("inside-name-already-touched-by-an-earlier-patch", 100)),
     },
     "C20": {
         "level_text": 'metamorphic: same case executed under 11 fuzz limits (8 usable ones and 3 that no hunk can use), reports and content compared',
